@@ -213,7 +213,12 @@ IllCalls ==
      UnCall(Slice(-1, 2)), UnCall(Slice(3, 1)), UnCall(Slice(-2, -1)),
      [f |-> "getitem", a |-> 0, b |-> 4, step |-> 2], [f |-> "getitem", a |-> 0, b |-> -1, step |-> -1],
      [f |-> "chain", rhs |-> "L3"], [f |-> "chain", rhs |-> "L4"],
-     UnCall(Calc("k", OnlySqlNeg)), UnCall(SelRaw(OnlySqlCmp)), UnCall(Sort(<<Term(OnlySqlNeg, TRUE)>>))}
+     UnCall(Calc("k", OnlySqlNeg)), UnCall(SelRaw(OnlySqlCmp)), UnCall(Sort(<<Term(OnlySqlNeg, TRUE)>>)),
+     \* an unsupported function nested inside OR / NOT / a container
+     UnCall(SelRaw(Or(<<Cmp("eq", A, Lit(0)), OnlySqlCmp>>))),
+     UnCall(SelRaw(Not(Or(<<OnlySqlCmp, Cmp("eq", A, Lit(1))>>)))),
+     UnCall(SelRaw(And(<<Cmp("ge", A, Lit(0)), Or(<<Cmp("eq", A, Lit(0)), OnlySqlCmp>>)>>))),
+     UnCall(SelRaw(In(A, SeqC(<<Lit(1), OnlySqlNeg>>))))}
     \* requests of the regular menu whose columns have been projected away
       \cup {UnCall(op) : op \in {Sel(Cmp("eq", A, Lit(0))), Sort(<<Term(B, TRUE)>>), Calc("k", Fn("add", <<A, B>>)),
                                  Sel(Cmp("lt", C, Lit(1)))}}
